@@ -314,10 +314,21 @@ where
         )
     }
 
+    /// Removes every entity, subtracting the entities of each archetype from `len` as it is cleared.
+    ///
+    /// If a component's `Drop` implementation panics, `len` still counts exactly the entities of the
+    /// archetypes that were not reached.
+    ///
     /// # Safety
-    /// `entity_allocator` must contain entries for each of the entities stored in the archetypes.
-    pub(crate) unsafe fn clear(&mut self, entity_allocator: &mut entity::Allocator<R>) {
+    /// `entity_allocator` must contain entries for each of the entities stored in the archetypes,
+    /// and `len` must be the total number of entities stored in the archetypes.
+    pub(crate) unsafe fn clear(
+        &mut self,
+        entity_allocator: &mut entity::Allocator<R>,
+        len: &mut usize,
+    ) {
         for archetype in self.iter_mut() {
+            *len -= archetype.len();
             // SAFETY: The `entity_allocator` is guaranteed to have an entry for each entity stored
             // in `archetype`.
             unsafe { archetype.clear(entity_allocator) };
